@@ -51,6 +51,15 @@ impl Property for C16 {
             }
             sc.world.stubs.push(s);
         }
+        // in one run of three nobody answers before t_up: the first bootstrap attempt(s) fail and the
+        // node sits in its back-off pauses (2 s, 4 s, 8 s, ...) while searches are being issued
+        if rng.chance(1, 3) {
+            let t_up = rng.range(500, 25_000);
+            for s in sc.world.stubs.iter_mut() {
+                s.answer = Answer::SilentUntil(t_up);
+            }
+            sc.params.insert("t_up".into(), t_up as i64);
+        }
         for i in 0..n_silent {
             // silent stubs are named by the others and slow the bootstrap down (0.5 s per bucket)
             let mut s = StubCfg::honest(stub_addr(v6, 100 + i), rng.id20());
@@ -162,17 +171,20 @@ impl Property for C16 {
         if boot_done > start.values().min().copied().unwrap_or(0) + 2_000 {
             v.hit("slow_bootstrap");
         }
+        if sc.param("t_up") > 2_500 && early > 0 {
+            v.hit("early_search_while_bootstrap_attempts_fail");
+        }
         v.sample = json!({"stubs": sc.world.stubs.len(), "contacts": sc.reals[0].nodes.len(), "peers_in_network": sc.param("peers"), "bootstrap_done_ms": boot_done, "early_searches": early, "control_peers": control.len(),
             "searches": start.iter().map(|(s, t)| json!({"step": s, "issued_ms": t, "ended_ms": end.get(s), "peers": items.get(s).map(|x| x.len())})).collect::<Vec<_>>()});
         v
     }
     fn rule(&self) -> &'static str {
-        "static loss-free network of 1..9 answering stubs (each naming all others) holding 0..3 unique peers each plus 0..4 silent stubs; a fresh real node with 1..3 contacts (+ optionally a dead one); 1..4 searches issued 0 ms .. 40 s after start (with/without announce); control = same search issued when bootstrapped() resolves. non-trivial = at least one search issued before bootstrap completion and the control search yields peers; distinct = distinct order digests"
+        "static loss-free network of 1..9 answering stubs (each naming all others) holding 0..3 unique peers each plus 0..4 silent stubs; a fresh real node with 1..3 contacts (+ optionally a dead one); in one run of three every contact is silent until a drawn instant (0.5..25 s), so the first bootstrap attempts fail and searches fall into the back-off pauses; 1..4 searches issued 0 ms .. 40 s after start (with/without announce); control = same search issued when bootstrapped() resolves. non-trivial = at least one search issued before bootstrap completion and the control search yields peers; distinct = distinct order digests"
     }
     fn assumptions(&self) -> Vec<&'static str> {
         vec!["peer sets are compared as sets; the network is static and loss-free, as the property's comparison requires"]
     }
     fn required_reach(&self) -> Vec<&'static str> {
-        vec!["search_before_first_datagram", "several_early_searches", "slow_bootstrap", "search_after_bootstrap"]
+        vec!["search_before_first_datagram", "several_early_searches", "slow_bootstrap", "search_after_bootstrap", "early_search_while_bootstrap_attempts_fail"]
     }
 }
